@@ -160,6 +160,36 @@ theorem script_transparent (D : StdDist β δ) (out : δ → String) (ty : Ty) (
 theorem erase_injective (s t : ObjsF δ) (h : s.erase = t.erase) : s = t :=
   ObjsF.erase_inj s t h
 
+/-- **A copy continues the sequence of its original.**  Right after `D_i` has been made from `D_j` (copy
+construction, copy assignment, move), a draw from `D_i` yields exactly what a draw from `D_j` would have yielded
+at that point, advances the generator the same way and leaves `D_i` in the state `D_j` would have been left in:
+nothing of the wrapped distribution's state is lost or restarted by copying. -/
+theorem copy_continues_sequence (D : StdDist β δ) (out : δ → String) (ty : Ty) (G : Gen γ) (i j : Nat) (w : Bool)
+    (s : ObjsF δ) (g : γ × γ) (d : Basic δ) (hj : s.dist j = some d) :
+    (runScriptF D out ty G [.copy i j false, .draw i w] s g).map (fun r => (r.1, r.2.1.dist i, r.2.2)) =
+      (runScriptF D out ty G [.draw j w] s g).map (fun r => (r.1, r.2.1.dist j, r.2.2)) ∧
+    (runScriptF D out ty G [.draw j w] s g).map (fun r => (r.1, r.2.1.dist j, r.2.2)) =
+      .ok ([.val (Basic.draw D ty G d (pick w g)).1], some (Basic.draw D ty G d (pick w g)).2.1,
+        put w g (Basic.draw D ty G d (pick w g)).2.2) := by
+  constructor <;> simp [runScriptF, stepF, hj, upd, Except.map]
+
+/-- **A variate holds its own copy of the distribution.**  Building `V_k` from `D_i` and drawing from `V_k`
+leaves every distribution object, `D_i` included, exactly as it was; the value drawn is the one `D_i` itself would
+have produced next from the generator the variate refers to. -/
+theorem variate_owns_copy (D : StdDist β δ) (out : δ → String) (ty : Ty) (G : Gen γ) (k i : Nat) (w : Bool)
+    (s : ObjsF δ) (g : γ × γ) (d : Basic δ) (hi : s.dist i = some d) :
+    (runScriptF D out ty G [.varD k i w, .vdraw k] s g).map (fun r => (r.1, r.2.1.dist, r.2.2)) =
+      .ok ([.val (Basic.draw D ty G d (pick w g)).1], s.dist, put w g (Basic.draw D ty G d (pick w g)).2.2) := by
+  simp [runScriptF, stepF, hi, upd, Except.map, Variate.draw, Variate.ctor]
+
+/-- **Assigning a variate re-seats its generator.**  After `V_k = V_l` a draw from `V_k` uses the generator `V_l`
+refers to (not the one `V_k` was built on) and continues `V_l`'s distribution state. -/
+theorem variate_assign_reseats (D : StdDist β δ) (out : δ → String) (ty : Ty) (G : Gen γ) (k l : Nat)
+    (s : ObjsF δ) (g : γ × γ) (v v' : Variate δ) (w w' : Bool) (hl : s.var l = some (v, w)) (hk : s.var k = some (v', w')) :
+    (runScriptF D out ty G [.varCopy k l true, .vdraw k] s g).map (fun r => (r.1, r.2.2)) =
+      .ok ([.val (Variate.draw D ty G v (pick w g)).1], put w g (Variate.draw D ty G v (pick w g)).2.2) := by
+  simp [runScriptF, stepF, hl, hk, upd, Except.map]
+
 /-! ## bounds (given the standard's contract for `uniform_int_distribution`) -/
 
 /-- **In range**: a uniform integer distribution of any result type, built for `[lo, hi]` with `lo ≤ hi`,
